@@ -187,18 +187,16 @@ Qed.
 (* unlinking element e (not the head): its predecessor p now points to nx e *)
 Lemma chain_unlink nx nx' s l1 p e l2 :
   chain nx s (l1 ++ p :: e :: l2) -> NoDup (l1 ++ p :: e :: l2) ->
-  nx' p = nx e -> (forall x, x <> p -> nx' x = nx x) ->
+  nx' p = nx e -> (forall x, In x l1 \/ In x l2 -> nx' x = nx x) ->
   chain nx' s (l1 ++ p :: l2).
 Proof.
   revert s. induction l1 as [|x r IH]; intros s H Hnd Hp Ho; cbn [app] in *.
   - inversion H as [|? ? Hs H1]. subst. inversion H1 as [|? ? He H2]. subst.
     constructor; [assumption|]. rewrite Hp.
-    inversion Hnd as [|? ? Hn1 Hnd1]. subst. inversion Hnd1 as [|? ? Hn2 Hnd2]. subst.
-    eapply chain_ext; [exact H2|]. intros y Hy. apply Ho. intros ->. apply Hn1. right. assumption.
+    eapply chain_ext; [exact H2|]. intros y Hy. apply Ho. right. assumption.
   - inversion H as [|? ? Hs H1]. subst. inversion Hnd as [|? ? Hn1 Hnd1]. subst.
-    constructor; [assumption|]. rewrite Ho.
-    + apply IH; assumption.
-    + intros ->. apply Hn1. apply in_or_app. right. left. reflexivity.
+    constructor; [assumption|]. rewrite Ho by (left; left; reflexivity).
+    apply IH; try assumption. intros y [Hy|Hy]; apply Ho; [left; right; assumption | right; assumption].
 Qed.
 
 (* unlinking the head *)
